@@ -75,7 +75,7 @@ def factor_shape(n, rng, maxdims=3):
     return tuple(shape)
 
 
-ARG_NAMES = ['b', 'a', 'd', 'c', 'e']      # deliberately not in sorted order
+ARG_NAMES = ['b', 'alpha', 'd', 'cc', 'e']      # deliberately not in sorted order; some longer than one character (a name taken for a sequence of letters must show)
 
 
 def make_values(rng, k, kind=None):
